@@ -69,6 +69,9 @@ def run(ck):
     ck.rule("R9", "explicit flag formulas: carry / overflow of a + b, a - b and their with-carry siblings (shared with C03-R5)", floor=4)
     from rules._composites import flag_formula_rules
     flag_formula_rules(ck, "R9", "miasm/expression/simplifications_explicit.py")
+    ck.rule("R10", "Expr.zeroExtend / signExtend / msb, which the rewrite rules use to build their results, build the operator they are named after (shared with C05-R4)", floor=3)
+    from rules._exprhelpers import extension_helper_rules
+    extension_helper_rules(ck, "R10")
     ck.rule("R8", "two constants fused into one ExprInt are concatenated at the low part's width and the result has the sum of both widths", floor=1)
 
     tables = pass_tables(ck)
